@@ -312,12 +312,23 @@ Definition val_op (v : val) : option (op str) :=
       if str_eqb t (lit "get") then Some (OGet k)
       else if str_eqb t (lit "del") then Some (ODel k)
       else if str_eqb t (lit "in") then Some (OContains k)
+      else if str_eqb t (lit "pop") then Some (OPop k)
       else None
-  | VList [VStr t; VStr k; VStr x] => if str_eqb t (lit "set") then Some (OSet k x) else None
+  | VList [VStr t; VStr k; VStr x] =>
+      if str_eqb t (lit "set") then Some (OSet k x)
+      else if str_eqb t (lit "setdefault") then Some (OSetDefault k x)
+      else if str_eqb t (lit "update_kw") then Some (OUpdate [(k, x)])
+      else if str_eqb t (lit "popdefault") then Some (OPopDefault k x)
+      else None
+  | VList [VStr t; VList l] =>
+      if str_eqb t (lit "update_pairs") then Some (OUpdate (val_pairs l))
+      else if str_eqb t (lit "update_map") then Some (OUpdate (val_pairs l))
+      else None
   | VList [VStr t] =>
       if str_eqb t (lit "len") then Some OLen
       else if str_eqb t (lit "iter") then Some OIter
       else if str_eqb t (lit "todict") then Some OToDict
+      else if str_eqb t (lit "clear") then Some OClear
       else None
   | _ => None
   end.
